@@ -27,6 +27,9 @@ pub struct MonState {
     pub last_accepted: BTreeMap<(u32, u32), Vec<u8>>,
     /// every dispute (tx number) the tower has ever been shown in a connected block
     pub disputes_seen: BTreeSet<u32>,
+    /// transactions submitted since the last block was connected (the carrier's per-block memo
+    /// legitimately answers for these without a new RPC)
+    pub sent_since_block: BTreeSet<u32>,
 }
 
 fn decrypts_to(spec: Option<&BlobSpec>, dispute: u32) -> Option<u32> {
@@ -157,7 +160,9 @@ pub fn after_op(
                 // C01: the breach was already confirmed when the appointment was accepted
                 match pen {
                     Some(p) => {
-                        let answered = sent_ok(p) || log.iter().any(|(m, t)| m == "get" && *t == p) || has_tracker;
+                        let tipn = g.sys.chain.len();
+                        let in_index = g.sys.chain[tipn.saturating_sub(100)..].iter().any(|b| b.3.contains(&p));
+                        let answered = sent_ok(p) || in_mempool(p) || in_index || g.mon.sent_since_block.contains(&p) || has_tracker;
                         if !answered {
                             let fp = if in_kept { "late_appointment_not_answered" } else { "late_appointment_missed_after_reorg_deficit" };
                             g.rep.fail("C01", fp, &format!("dispute t{} is in the last 6 blocks, penalty t{} neither submitted nor tracked", loc * 16, p * 16));
@@ -297,7 +302,7 @@ pub fn after_op(
                     Some(p) => {
                         let tip = g.sys.chain.len();
                         let in_index = g.sys.chain[tip.saturating_sub(101)..tip - 1].iter().any(|b| b.3.contains(&p));
-                        let asked = log.iter().any(|(m, t)| (m == "send" || m == "get") && *t == p);
+                        let asked = sent_ok(p) || in_mempool(p);
                         if !asked && !in_index && !cur.trackers.contains_key(k) {
                             g.rep.fail("C01", "breach_not_answered", &format!("{k:?}: dispute t{} in block {height}, penalty t{} not submitted", k.0 * 16, p * 16));
                         }
@@ -392,6 +397,16 @@ pub fn after_op(
         }
     }
 
+    // the carrier's memo lives from one block connection to the next
+    if matches!(op, HOp::Conn { .. }) {
+        g.mon.sent_since_block.clear();
+    } else {
+        for (m, t) in log.iter() {
+            if m == "send" {
+                g.mon.sent_since_block.insert(*t);
+            }
+        }
+    }
     // ---------------------------------------------------------------- C07: conservation
     for (u, ui) in cur.users.iter() {
         let g_u = *g.mon.granted.get(u).unwrap_or(&0);
